@@ -196,7 +196,7 @@ Ltac step1 :=
   end.
 Ltac py := repeat (progress (repeat step1; unfold test; cbn; rewrite ?len3, ?len2, ?len1, ?index_0)).
 (* locals of an abstract environment known through hypotheses `lookup x env = Some v` *)
-Ltac lk := repeat match goal with H : lookup _ _ = Some _ |- _ => rewrite H end.
+Ltac lk := repeat match goal with H : lookup _ _ = _ |- _ => rewrite H end.
 Ltac pye := repeat (progress (py; lk)).
 Ltac start W kk := (rewrite (run_unfold W)); unfold kk; cbn [bind_params pf_params pf_body].
 
